@@ -141,7 +141,6 @@ BUCKETS = [
     (r"no method named `wit_map_len`", "WitMap-trait-not-in-scope"),
     (r"no method named `into_bytes` found for struct `Vec<u8>`", "raw-strings-into-bytes-on-vec"),
     (r"conflicting implementations of trait `(Future|Stream)Payload`", "duplicate-payload-impl"),
-    (r"the name `Guest\w*` is defined multiple times", "type-named-guest-collides-with-trait"),
     (r"match bindings cannot shadow tuple structs", "type-named-like-prelude-variant"),
 ]
 DIRECTED = [
@@ -150,6 +149,53 @@ DIRECTED = [
     ("keyword-package-names", "w", "package true:for;\ninterface i { f: func(); }\nworld w { import i; export i; }\n", ["default"]),
     ("type-named-none", "w", "package a:b;\ninterface i { flags none { a, b } f: func(x: option<u8>) -> none; }\nworld w { import i; export i; }\n", ["default"]),
     ("case-named-self", "w", "package a:b;\ninterface i { variant v { self(u8), other } f: func(x: v) -> v; }\nworld w { import i; export i; }\n", ["default"]),
+    # sharp gate (compiles on the pinned tree): types named exactly `guest` (record / variant / enum, not flags) in every
+    # position - import and export, parameter and result, nested in list/option/result - under the ownership and merge options
+    ("reserved-type-names", "reserved", """package a:reserved;
+interface rec-iface {
+  record guest { a: u8, b: string }
+  f: func(x: guest) -> guest;
+  g: func(x: list<guest>, y: option<guest>) -> result<list<guest>, guest>;
+}
+interface var-iface {
+  variant guest { a(u8), b(string), c }
+  f: func(x: guest) -> guest;
+  g: func(x: list<guest>) -> option<guest>;
+}
+interface enum-iface {
+  enum guest { a, b }
+  f: func(x: guest) -> guest;
+  g: func(x: option<guest>) -> list<guest>;
+}
+world reserved {
+  import rec-iface; import var-iface; import enum-iface;
+  export rec-iface; export var-iface; export enum-iface;
+  import wf: func(x: u8) -> u8;
+}
+""", ["default", "borrowed", "merge-equal"]),
+    # same, payload-free of strings/lists inside the `guest` types: `borrowing-duplicate-if-necessary` has a declared bug
+    # (crates/test/src/rust.rs) with borrowed data in duplicated types, which would mask this gate
+    ("reserved-type-names-pod", "reserved", """package a:reserved;
+interface rec-iface {
+  record guest { a: u8, b: u64 }
+  f: func(x: guest) -> guest;
+  g: func(x: list<guest>, y: option<guest>) -> result<list<guest>, guest>;
+}
+interface var-iface {
+  variant guest { a(u8), b(f64), c }
+  f: func(x: guest) -> guest;
+  g: func(x: list<guest>) -> option<guest>;
+}
+interface enum-iface {
+  enum guest { a, b }
+  f: func(x: guest) -> guest;
+  g: func(x: option<guest>) -> list<guest>;
+}
+world reserved {
+  import rec-iface; import var-iface; import enum-iface;
+  export rec-iface; export var-iface; export enum-iface;
+}
+""", ["default", "borrowed", "borrowed-duplicate", "merge-equal"]),
     ("type-named-guest", "w", "package a:b;\ninterface i { flags guest { a, b } f: func(x: guest) -> guest; }\nworld w { export i; }\n", ["default"]),
 ]
 
@@ -189,6 +235,9 @@ def run_job(job, workroot, ctx):
             return {"status": "inconclusive", "why": "rustc ICE (%s)" % stage, "detail": err[-300:]}
         wit_text = compz.read_wit(job["wit"])
         root = compz.bucket(msg, BUCKETS)
+        if not root and re.search(r"the name `Guest\w*` is defined multiple times", msg) and re.search(r"\bflags\s+%?guest\b", wit_text):
+            # known class, limited to a *flags* type called `guest` (other kinds are renamed to `Guest_`)
+            root = "type-named-guest-collides-with-trait"
         if not root and "expected identifier, found" in msg:
             root = compz.keyword_root_cause(err, wit_text, compz.RUST_KEYWORDS)
         if not root and job["source"] in ("random", "directed") and compz.confirmed_temporary_collision(err, wit_text):
